@@ -376,8 +376,19 @@ class Interp:
         return self.c.branch(self.truth_term(v), tag)
 
     # ------------------------------------------------------------------ attributes
+    def mangle(self, name):
+        """private name mangling: inside a method of class C, `x.__attr` means `x._C__attr`"""
+        if name.startswith("__") and not name.endswith("__") and self.frames:
+            q = self.frames[-1].qual.split(":")[-1]
+            if "." in q:
+                cls = q.split(".")[-2].lstrip("_")
+                if cls:
+                    return f"_{cls}{name}"
+        return name
+
     def getattr(self, o, name):
         c = self.c
+        name = self.mangle(name)
         if isinstance(o, Sym):
             o = self.resolve(o)
         if isinstance(o, Sym) and o.t.sort() == Val and (o.ty or "val") == "val":
@@ -447,6 +458,7 @@ class Interp:
         return self.wrap(raw)
 
     def setattr(self, o, name, v):
+        name = self.mangle(name)
         c = self.c
         if isinstance(o, Sym):
             o = self.resolve(o)
